@@ -293,7 +293,7 @@ int accept(ACCEPTPARAMS) {
     }
   }
 
-  if (sock > 0) {
+  if (sock >= 0) {
     if (setup_socket(sock) < 0) {
       close(sock);
       return -1;
